@@ -113,6 +113,7 @@ func main() {
 			overlappingClosureCalls(rep, prop, api)
 		}
 		if prop == "C09" {
+			twoClosurePositions(rep, prop, api)
 			closureValueRows(rep, prop, jsonRaw(), api)
 			closureValueRows(rep, prop, cborRaw(), api)
 		}
@@ -129,6 +130,9 @@ func main() {
 		}
 	}
 	if prop == "C13" {
+		enumProp = "C13"
+		c14EnumDuringTeardown(rep)
+		enumProp = "C14"
 		twoLinksSameLiteral(rep, prop)
 		ld := 1200 * time.Millisecond
 		if *tier == "thorough" {
@@ -149,6 +153,7 @@ func main() {
 	}
 	if prop == "C08" {
 		c08NarrowClosureArgs(rep)
+		c08BothMembers(rep)
 	}
 	switch prop {
 	case "C01", "C10", "C11", "C17":
